@@ -175,7 +175,7 @@ func dischargeAll(ctxs []*Ctx, outDir string, timeoutS int, par int, all bool) {
 				tmo = 3
 			}
 			if o.Expect == "consistent" {
-				tmo = 5
+				tmo = 3
 			}
 			r, rs := runSolvers(file, tmo, all && o.Expect == "")
 			o.Solver = r.solver
